@@ -148,4 +148,52 @@ theorem rotZk_orth (v : V3 α) (k : α) (hv : v.norm2 = 1) (hk : k * (1 + v.z) =
 
 end rot
 
+/-! ### the normal of the two-hydrogen branch never vanishes after the repair of D32 -/
+
+section normal
+variable {α : Type} [CommRing α] [DecidableEq α]
+
+def cross (a b : V3 α) : V3 α :=
+  ⟨a.y * b.z - a.z * b.y, a.z * b.x - a.x * b.z, a.x * b.y - a.y * b.x⟩
+
+/-- `z = cross(vec, ẑ)`, replaced by `cross(vec, x̂)` when it vanishes (before normalisation) -/
+def fallbackNormal (vec : V3 α) : V3 α :=
+  if cross vec ⟨0, 0, 1⟩ = ⟨0, 0, 0⟩ then cross vec ⟨1, 0, 0⟩ else cross vec ⟨0, 0, 1⟩
+
+omit [DecidableEq α] in
+/-- the as-shipped choice `cross(vec, ẑ)` vanishes exactly on directions along ẑ (the witness of D32) -/
+theorem cross_z_eq_zero_iff (vec : V3 α) : cross vec ⟨0, 0, 1⟩ = ⟨0, 0, 0⟩ ↔ vec.x = 0 ∧ vec.y = 0 := by
+  simp only [cross, V3.mk.injEq]
+  constructor
+  · rintro ⟨h1, h2, _⟩
+    constructor
+    · have : vec.x = -(vec.z * 0 - vec.x * 1) := by ring
+      rw [this, h2]; ring
+    · have : vec.y = vec.y * 1 - vec.z * 0 := by ring
+      rw [this, h1]
+  · rintro ⟨h1, h2⟩; rw [h1, h2]; refine ⟨by ring, by ring, by ring⟩
+
+/-- the repaired choice is non-zero for every non-zero direction: the normalisation is defined -/
+theorem fallbackNormal_ne_zero (vec : V3 α) (h : vec ≠ ⟨0, 0, 0⟩) : fallbackNormal vec ≠ ⟨0, 0, 0⟩ := by
+  unfold fallbackNormal
+  split
+  · rename_i hz
+    obtain ⟨hx, hy⟩ := (cross_z_eq_zero_iff vec).1 hz
+    intro hc
+    simp only [cross, V3.mk.injEq] at hc
+    have hzz : vec.z = 0 := by
+      have : vec.z = vec.z * 1 - vec.x * 0 := by ring
+      rw [this]; exact hc.2.1
+    apply h
+    cases vec
+    simp_all
+  · rename_i hz; exact hz
+
+/-- and it is orthogonal to the direction -/
+theorem fallbackNormal_orth (vec : V3 α) : (fallbackNormal vec).dot vec = 0 := by
+  unfold fallbackNormal
+  split <;> simp only [cross, V3.dot] <;> ring
+
+end normal
+
 end Molli.Lemmas.Hydrogens
